@@ -186,6 +186,7 @@ func init() {
 			c10Case(o, rng.Fork())
 		}
 		c10Reflect(o)
+		c10Lists(o)
 	}
 }
 
@@ -195,7 +196,10 @@ func init() {
 // positionally; an argument that is left out must still be refused when it is required, and the method must not
 // be called with a made-up value in its place.
 
-type c10RQ struct{ calls *[]string }
+type c10RQ struct {
+	calls *[]string
+	Size  int32 // the field `size` is bound to this member, not to a method
+}
 
 func (q *c10RQ) Greet(name string, loud bool) string {
 	*q.calls = append(*q.calls, fmt.Sprintf("greet(%q,%v)", name, loud))
@@ -223,23 +227,126 @@ var c10RTable = []struct {
 	{`query($n: String){ greet(name: $n, loud: true) }`, nil, "name"},
 	{`query($n: String){ greet(name: $n, loud: true) }`, map[string]interface{}{"n": "v"}, ""},
 	{`{ greet(name: null, loud: true) }`, nil, "name"},
+	{`{ greet(name: "x") }`, nil, ""}, // an optional argument left out
+	{`{ greet }`, nil, "name"},
+	{`{ size(unit: "cm") }`, nil, ""},
+	{`{ size }`, nil, "unit"},
+	{`{ me { size } }`, nil, "unit"},
+	{`{ size(unit: null) }`, nil, "unit"},
+	{`query($u: String){ size(unit: $u) }`, nil, "unit"},
+	{`query($u: String){ size(unit: $u) }`, map[string]interface{}{"u": "cm"}, ""},
 }
 
 func c10Reflect(o *Out) {
 	for _, e := range c10RTable {
 		var calls []string
-		q := &c10RQ{calls: &calls}
+		q := &c10RQ{calls: &calls, Size: 3}
 		root := ggql.NewRoot(&c10RSchema{Query: q})
-		if err := root.ParseString("type Query { greet(name: String!, loud: Boolean): String sum(a: Int!, b: Int!): Int me: Query }"); err != nil {
+		if err := root.ParseString("type Query { greet(name: String!, loud: Boolean): String sum(a: Int!, b: Int!): Int me: Query size(unit: String!): Int }"); err != nil {
 			panic(err)
 		}
 		res := safeResolve(root, e.doc, "", e.vars)
 		hasErr := res["errors"] != nil
+		// a member-bound field is "called" when its value is in the response
+		if strings.Contains(canon(res["data"]), `"size":3`) {
+			calls = append(calls, "size")
+		}
 		o.Count("reflection required-argument cases")
 		o.Emit(Case{
 			Term:       N("c10r", S(e.doc), B(e.refuse != "")),
 			Obs:        N("obs", B(len(calls) > 0), B(hasErr)),
 			Meta:       map[string]interface{}{"doc": e.doc, "response": fmt.Sprintf("%v", res), "calls": fmt.Sprintf("%v", calls)},
+			Nontrivial: true,
+		})
+	}
+}
+
+// ---- undeclared / missing arguments on every member of a list and on each member type of a union ------
+//
+// A field of the request is one node shared by all the objects it is resolved on.  The property speaks of the
+// response and of the resolver for each of them: an undeclared argument (or a required one left out) is an error
+// for every member and the resolver of none of them is invoked with it; under a union the declaration that
+// counts is the one in the member's own type.  Fixed table, every run.
+
+type c10LNode struct {
+	typ   string
+	id    string
+	calls *[]string
+}
+
+func (n *c10LNode) Resolve(f *ggql.Field, args map[string]interface{}) (interface{}, error) {
+	*n.calls = append(*n.calls, n.typ+"."+f.Name)
+	mk := func(typ, id string) *c10LNode { return &c10LNode{typ: typ, id: id, calls: n.calls} }
+	switch f.Name {
+	case "query":
+		return mk("Query", ""), nil
+	case "items":
+		return []interface{}{&c10LItem{*mk("Item", "a")}, &c10LOther{*mk("Other", "b")}, &c10LItem{*mk("Item", "c")}}, nil
+	case "list":
+		return []interface{}{&c10LItem{*mk("Item", "a")}, &c10LItem{*mk("Item", "b")}, &c10LItem{*mk("Item", "c")}}, nil
+	case "id":
+		return n.id, nil
+	case "sub":
+		return &c10LItem{*mk("Item", n.id+"'")}, nil
+	}
+	return n.typ + " " + f.Name, nil
+}
+
+type c10LItem struct{ c10LNode }
+type c10LOther struct{ c10LNode }
+
+const c10LSDL = `type Query { items: [Thing] list: [Item] }
+union Thing = Item | Other
+type Item { id: String plain(x: Int): String size(unit: String!): String sub: Item }
+type Other { id: String size: String }`
+
+var c10LTable = []struct {
+	doc       string
+	forbidden string // resolver call that must not happen
+	nerr      int    // errors the response must carry
+}{
+	{`{ list { id plain(x: 1) } }`, "", 0},
+	{`{ list { id plain(bogus: 1) } }`, "Item.plain", 3},
+	{`{ list { id sub { plain(bogus: 1) } } }`, "Item.plain", 3},
+	{`{ list { id size } }`, "Item.size", 3},
+	{`{ items { ... on Item { id plain(bogus: 1) } } }`, "Item.plain", 2},
+	{`{ items { ... on Item { size(unit: "x") } ... on Other { size(unit: "x") } } }`, "Other.size", 1},
+	{`{ items { ... on Other { size(unit: "x") } ... on Item { size(unit: "x") } } }`, "Other.size", 1},
+	{`{ items { ... on Other { size } ... on Item { size } } }`, "Item.size", 2},
+	{`{ items { ... on Item { size(unit: "x") } ... on Other { size } } }`, "", 0},
+}
+
+func c10Lists(o *Out) {
+	for _, e := range c10LTable {
+		var calls []string
+		root := ggql.NewRoot(&c10LNode{typ: "Root", calls: &calls})
+		if err := root.ParseString(c10LSDL); err != nil {
+			panic(err)
+		}
+		if err := root.RegisterType(&c10LItem{}, "Item"); err != nil {
+			panic(err)
+		}
+		if err := root.RegisterType(&c10LOther{}, "Other"); err != nil {
+			panic(err)
+		}
+		res := safeResolve(root, e.doc, "", nil)
+		nerr := 0
+		if ea, ok := res["errors"].([]interface{}); ok {
+			nerr = len(ea)
+		}
+		bad, good := 0, 0
+		for _, c := range calls {
+			if c == e.forbidden {
+				bad++
+			} else if strings.HasSuffix(c, ".id") || strings.HasSuffix(c, ".plain") || strings.HasSuffix(c, ".size") {
+				good++
+			}
+		}
+		o.Count("list / union member argument cases")
+		o.Emit(Case{
+			Term:       N("c10l", S(e.doc), I(int64(e.nerr))),
+			Obs:        N("obs", I(int64(bad)), I(int64(nerr))),
+			Meta:       map[string]interface{}{"doc": e.doc, "response": canon(res), "calls": fmt.Sprintf("%v", calls), "valid_leaf_calls": good},
 			Nontrivial: true,
 		})
 	}
